@@ -20,7 +20,7 @@ EXT = {   # family -> (binary, monitor module, TLA library dirs, driver argument
     "C10": ("c10", "Trace_C10", ("C03",), ["--max-prec", "20"]),
     "C12": ("c12", "Trace_C12", (), ["--max-words", "6"]),
     "C13": ("c13", "Trace_C13", (), ["--max-words", "6"]),
-    "C14": ("c14", "Trace_C14", ("C06",), []),
+    "C14": ("c14", "Trace_C14", ("C06",), ["--n-scale", "4"]),
     "C18": ("c18", "Trace_C18", (), ["--max-words", "2"]),
 }
 
@@ -116,14 +116,27 @@ def run(ctx):
         for line in open(c13all):
             if json.loads(line).get("shape", 0) >= 11:
                 f.write(line)
-    extra_cases = {"C13": ["--cases", c13]}
+    # C06: integer -> f32/f64 conversions of its generator (tie and sticky-bit sweeps cross word boundaries of either word size)
+    gcfg = fw.write_cfg(ctx.path("Gen_C06.cfg"), invariants=["Emit"], constants={"Seed": ctx.seed % 1000, "Stride": ctx.pick(12, 2)})
+    c06all, _ = ctx.gen("gen-C06", "C06", "Gen_C06.tla", gcfg, workers=4)
+    c06 = ctx.path("cases-C06-int-to-float.ndjson")
+    with open(c06, "w") as f:
+        for line in open(c06all):
+            cse = json.loads(line)
+            if cse.get("op") == "to_f" and cse.get("x", {}).get("t") in ("U", "I"):
+                f.write(line)
+    extra_cases = {"C13": ["--cases", c13], "C06": ["--cases", c06]}
     for fam, (b, mon, libs, dargs) in EXT.items():
         fam_traces[fam] = []
         for c in CFGS:
-            tr = ctx.drive(fw.build(c, b), extra_cases.get(fam, []) + ["--seed", s, "--n", str(next_)] + dargs, "trace-%s-%s.ndjson" % (fam, c))
+            nn = next_
+            if "--n-scale" in dargs:            # families whose event count grows faster than n
+                nn = max(8, next_ // int(dargs[dargs.index("--n-scale") + 1]))
+                dargs = []
+            tr = ctx.drive(fw.build(c, b), extra_cases.get(fam, []) + ["--seed", s, "--n", str(nn)] + dargs, "trace-%s-%s.ndjson" % (fam, c))
             fam_traces[fam].append(tr)
             jobs.append(("def-%s-%s" % (fam, c), fam, mon + ".tla", mon + ".cfg", tr, libs))
-    results = par_tlc(ctx, jobs, threads=ctx.pick(5, 8))
+    results = par_tlc(ctx, jobs, threads=8)
     orig = fw.tlc
     fw.tlc = lambda name, *a, **k: results[name]
     try:
